@@ -347,9 +347,11 @@ static void summary_entry_add(struct jls_core_fsr_s * self, uint8_t level,
             sample_idx = idx * self->parent->signal_def.summary_decimate_factor;                               \
             for (uint32_t sample = 0; sample < self->parent->signal_def.summary_decimate_factor; ++sample) {   \
                 uint32_t offset = sample_idx * JLS_SUMMARY_FSR_COUNT;                           \
-                double v = src_data[offset + JLS_SUMMARY_FSR_MEAN] - v_mean;                    \
-                double std = src_data[offset + JLS_SUMMARY_FSR_STD];                            \
-                v_var += (std * std) + (v * v);                                                 \
+                if (isfinite(src_data[offset + JLS_SUMMARY_FSR_MEAN])) {                        \
+                    double v = src_data[offset + JLS_SUMMARY_FSR_MEAN] - v_mean;                \
+                    double std = src_data[offset + JLS_SUMMARY_FSR_STD];                        \
+                    v_var += (std * std) + (v * v);                                             \
+                }                                                                               \
                 ++sample_idx;                                                                   \
             }                                                                                   \
             v_var /= count;                                                                 \
